@@ -20,7 +20,7 @@ def RULE(tier):
         "harness. Actions: application send on either side (unique payload; accepted iff send_msg returns), deliver the next "
         "in-flight frame in either direction (or all in-flight frames of one direction coalesced into one read), break the connection (everything in flight lost; each end sees EOF / "
         "ConnectionResetError on read / OSError on read / a failing drain), reconnect (real connect() / _handle_accept() over "
-        f"fresh streams + Logon). Bounded-exhaustive DFS over all action sequences up to depth {b['depth']} with <= {b['sends']} sends "
+        f"fresh streams + Logon), and (walks and fixed sequences only) arming a side's on_message to raise once after it recorded the message. Bounded-exhaustive DFS over all action sequences up to depth {b['depth']} with <= {b['sends']} sends "
         f"and <= {b['breaks']} breaks of kinds {b['kinds']} (each sequence re-executed from scratch, deduplicated by a hash of both "
         f"state enums, the four counters, both journals, FIFO contents and delivery counts), plus Hypothesis walks up to {WALK[tier]} "
         "actions with all break kinds. Every explored sequence is closed (deliver all, watchdog for an end that has not noticed, "
@@ -32,6 +32,7 @@ def RULE(tier):
 
 
 ASSUMPTIONS = [
+    "an application handler that raises has still received the message (it is recorded before the raise): it counts as delivered once",
     "breaks happen at frame boundaries only; the simulated transport follows asyncio stream semantics (write never raises, drain may)",
     "FREE: sends refused while disconnected or mid-logon; payloads whose send raised a transport error after a number was allocated may or may not arrive (never twice)",
     "'after quiescence' is read as bounded-time safety: closure is capped at 400 deliveries (hitting the cap is reported as its own signature)",
@@ -75,6 +76,9 @@ def apply(d, a, flags):
     elif a[0] == "reconnect":
         d.reconnect()
         flags.add("reconnect")
+    elif a[0] == "arm":
+        d.ep[a[1]].raise_next += 1
+        flags.add("handler-raises")
     return None
 
 
@@ -188,6 +192,8 @@ def run_walk(acc, steps):
             acts = enabled(d, {"sends": 99, "breaks": 99, "kinds": [kind]})
             # bias: a break is often followed by reconnect; deliveries are frequent
             cat = ["send", "deliver", "deliver_all", "break", "reconnect", "send", "deliver", "any"][choice % 8]
+            if choice % 41 == 0:
+                acts = [("arm", "c"), ("arm", "s")]
             pool = [a for a in acts if a[0] == cat] or ([a for a in acts if a[0] == "deliver"] if cat == "deliver_all" else []) or ([a for a in acts if a[0] == "reconnect"] if choice % 3 == 0 else []) or acts
             if not pool:
                 break
@@ -209,12 +215,31 @@ FIXED = [
      ("send", "c"), ("break", "eof"), ("reconnect",), ("send", "s")],
     [("send", "c"), ("break", "oserror"), ("reconnect",), ("deliver", "c"), ("send", "s"), ("break", "reset"), ("reconnect",)],
     [("send", "s"), ("send", "c"), ("break", "drain"), ("send", "c"), ("send", "s")],
+    # the receiving application's handler fails on the second message; the third is lost with the link
+    [("send", "c"), ("send", "c"), ("send", "c"), ("arm", "s"), ("deliver", "c"), ("deliver", "c"), ("deliver", "c"), ("break", "eof"), ("reconnect",), ("send", "c")],
+    [("send", "s"), ("arm", "c"), ("deliver", "s"), ("send", "s"), ("break", "eof"), ("reconnect",), ("arm", "c"), ("send", "s")],
+    [("arm", "s"), ("send", "c"), ("send", "c"), ("deliver_all", "c"), ("send", "c"), ("deliver", "c")],
 ]
 
 
 def fixed(acc):
     for seq in FIXED:
-        run_sequence(acc, seq, "fixed")
+        # resolve against a live pair: deliveries with nothing in flight are dropped (a raising handler changes what is in flight)
+        d = Duo()
+        eff = []
+        try:
+            for a in seq:
+                if a[0] in ("deliver", "deliver_all") and not d.can_deliver(a[1]):
+                    continue
+                if a[0] == "deliver_all" and len(d.fifo(a[1])) < 2:
+                    a = ("deliver", a[1])
+                if a[0] == "reconnect" and not d.can_reconnect():
+                    continue
+                eff.append(a)
+                apply(d, a, set())
+        finally:
+            d.close()
+        run_sequence(acc, eff, "fixed")
 
 
 def EXHAUSTIVE(tier):
